@@ -468,8 +468,9 @@ Lemma pause_all_rep q t : t <= q_samples q ->
    map (fun i => ERemoved (i_key i) (i_t0 i)) (filter (fun i => ends_after i t) (rev (q_generated q))),
    false).
 Proof.
-  intros Ht. unfold pause, pause_state, pause_requeue, requeue_ord. cbn [all_rep r_cancel_once r_trim_log r_complete_reset r_empty_reset].
-  assert (E : t >? q_samples q = false) by lia. rewrite E.
+  intros Ht. unfold pause, pause_state, pause_requeue, requeue_ord.
+  cbn [all_rep r_cancel_once r_trim_log r_complete_reset r_empty_reset r_pause_atomic].
+  assert (E : t >? q_samples q = false) by lia. rewrite E. cbn [andb].
   assert (D1 : match q_source q, lastinfo (q_generated q) with
                | Some _, Some i => q_data q | _, _ => q_data q end = q_data q).
   { destruct (q_source q); [destruct (lastinfo _)|]; reflexivity. }
